@@ -140,13 +140,22 @@ func (g *fgen) autoTextCond(old *Expr) *Expr {
 	g.autoCfg[name] = AutoV{VarName: "VAR_RESULT"}
 	leaf := &Expr{K: "leaf", Typ: "auto", Opnd: "VAR_RESULT", Toks: []string{name, "@inl0", ",", "MSGBOX_YESNO"},
 		Inl: []Inline{g.inlineText()}, Form: "cmp", Op: "==", Val: "YES"}
-	switch g.r.Intn(3) {
+	flagLeaf := func(n string) *Expr { return &Expr{K: "leaf", Typ: "flag", Opnd: n, Form: "bare"} }
+	switch g.r.Intn(6) {
 	case 0:
 		return leaf
 	case 1:
 		return &Expr{K: "and", L: old, R: leaf}
-	default:
+	case 2:
 		return &Expr{K: "or", L: leaf, R: old}
+	case 3:
+		// in the middle of a chain of three
+		return &Expr{K: "and", L: &Expr{K: "and", L: flagLeaf("FLAG_M1"), R: leaf}, R: old}
+	case 4:
+		// in the middle of a chain of four, followed by ||
+		return &Expr{K: "or", L: &Expr{K: "and", L: &Expr{K: "and", L: &Expr{K: "and", L: flagLeaf("FLAG_M1"), R: flagLeaf("FLAG_M2")}, R: leaf}, R: flagLeaf("FLAG_M3")}, R: old}
+	default:
+		return &Expr{K: "or", L: &Expr{K: "or", L: flagLeaf("FLAG_M1"), R: leaf}, R: &Expr{K: "not", E: old}}
 	}
 }
 
